@@ -1,3 +1,3 @@
 SPECIFICATION Spec
-CONSTANT KS = {1}
+CONSTANT KS = {1, 2, 3}
 CHECK_DEADLOCK FALSE
